@@ -343,7 +343,14 @@ func (s *PersistentHybridIndex) Train(vectors [][]float32) error {
 		nodes[i] = *NewVectorNodeWithID(uint32(i), vec)
 	}
 
-	return s.config.VectorIndexTemplate.Train(nodes)
+	if err := s.config.VectorIndexTemplate.Train(nodes); err != nil {
+		return err
+	}
+
+	// The writable memtable was built from the untrained template
+	s.memtableQueue.renewMutable()
+
+	return nil
 }
 
 // VectorIndex returns the underlying vector index template.
